@@ -21,6 +21,10 @@ def ref_apply(ref, cmd):
     if name in ("initialize", "initialize_b"):
         ref.initialize(cmd[1] if len(cmd) > 1 else None)
         return "ok"
+    if name == "initialize_failing":
+        # construct_model raises: outcome and state are left open by the
+        # statement; the script always continues with a plain initialize
+        return "FAILS"
     if name == "cleanup":
         ref.cleanup()
         return "ok"
@@ -215,6 +219,9 @@ def evaluate_sequential(case, runner):
             return [], {"invalid": True, "accepted": 0, "refused": 0, "unjudged": 0}
         exp = ref_apply(ref, cmd)
         got = c.get("outcome")
+        if exp == "FAILS":
+            info["unjudged"] += 1
+            continue
         lenient = exp is None
         if lenient:
             info["unjudged"] += 1
@@ -334,7 +341,7 @@ def replay_form(case, runner):
         return None
     c = dict(case)
     s2 = {k: v for k, v in sc.items() if k in ("step_cost_us", "oversleep",
-                                                 "seed", "clock_jumps")}
+                                                 "seed", "clock_jumps", "opcodes")}
     # (stalls are recorded inside the decision list)
     s2["kind"] = "replay"
     s2["decisions"] = [list(d) for d in runner.det.decisions]
